@@ -32,8 +32,8 @@ PROPS = {
 PROPS.update({
     "C01": {
         "level": "proof",
-        "text": "Kernel-checked theorems over every label list: at_most_once, handled_were_accepted, rejected_never (state form and on the monitor predicate evaluated on real traces). The model's mailbox is tied to the code by per-run correspondence; the acceptance probe makes 'accepted' observable on the real side; monitors C01.atMostOnce / rejectedNever / gracefulComplete run on every real trace.",
-        "note": PROOF_NOTE + " graceful_complete is checked by the monitor on real traces and by correspondence; its theorem is not yet in Props/C01.lean.",
+        "text": "Kernel-checked theorems over every label list: at_most_once, handled_were_accepted, rejected_never (state form and on the monitor predicate evaluated on real traces), graceful_complete (everything the loop has dequeued has been handled) and marker_is_next (when the loop dequeues a stop marker everything accepted before it has been dequeued). The model's mailbox is tied to the code by per-run correspondence; the acceptance probe makes 'accepted' observable on the real side; monitors C01.atMostOnce / rejectedNever / gracefulComplete run on every real trace.",
+        "note": PROOF_NOTE + "",
         "technique": "Lean 4 invariant proofs (FIFO log, id freshness, rejection) by induction over label sequences + correspondence + Lean monitors on real traces",
         "extra": ["stress"],
         "monitors": ["C01"],
@@ -43,7 +43,7 @@ PROPS.update({
     },
     "C02": {
         "level": "proof",
-        "text": "Kernel-checked: handler starts are exactly the envelopes of the taken prefix of the acceptance log, in order; the mailbox is the remaining suffix; an item is accepted at most once; the log only grows at its end - for every schedule, capacity and operation mix, the stop marker being an ordinary item of the same queue. Correspondence + monitors C02.fifo / idxInOrder / stopPrefix on real traces (acceptance order observed by the probe).",
+        "text": "Kernel-checked: handler starts are exactly the envelopes of the taken prefix of the acceptance log, in order; the mailbox is the remaining suffix; an item is accepted at most once; the log only grows at its end - for every schedule, capacity and operation mix, the stop marker being an ordinary item of the same queue. stop() in band: before_stop_handled (everything accepted before the dequeued marker has been handled), after_stop_never_handled (nothing accepted behind a marker is ever handled, in any reachable state), nothing_after_stop_begins (no handler starts once the loop has left its select; via the invariant that the dequeue pointer never passes a marker). Correspondence + monitors C02.fifo / idxInOrder / stopPrefix / stopCallOrder / nothingAfterStopReturned on real traces (acceptance order observed by the probe).",
         "note": PROOF_NOTE,
         "technique": "Lean 4 invariant proof (mailbox = suffix of acceptance log) + correspondence + Lean monitors on real traces",
         "extra": ["stress"],
